@@ -107,7 +107,7 @@ class C08(Check):
         res = result_template()
         viol, cnt = res["violations"], res["counters"]
         res["key"] = jdigest([case["config"], case.get("sched_seed")])
-        base = sched.observe(case)
+        base = sched.observe(case, isolate=True)
         if base["error"] and base["numerical"]:
             res["skipped"] = "aborted_numerical"
             cnt["aborted_numerical"] = 1
@@ -127,7 +127,7 @@ class C08(Check):
         for desc in alts:
             c2 = dict(case)
             c2["schedule"] = desc
-            alt = sched.observe(c2)
+            alt = sched.observe(c2, isolate=True)
             inter.append(jdigest(alt["batches"]))
             res["faults"]["task_retry"] = res["faults"].get("task_retry", 0) + alt["retries"]
             if desc.get("exec_mode") in ("lazy", "batch"):
